@@ -90,7 +90,7 @@ def run(tier, seed):
         plans = [{"id": "g%d" % k, "steps": with_inputs(h, k)} for k, h in enumerate(hists)]
         # the straight-line happy path with reactivation, and random long walks of the model
         plans.append({"id": "happy", "uid": 1004, "steps": with_inputs(HAPPY, 0)})
-        nsim = 40 if tier == "quick" else 400
+        nsim = 40 if tier == "quick" else 3000
         sim, walks = activation.generate(wd, 60, simulate="num=%d" % nsim, seed=seed)
         for k, h in enumerate(walks):
             plans.append({"id": "walk%d" % k, "steps": with_inputs(h, k)})
